@@ -86,10 +86,10 @@ struct WkdRun {
                 if (alt) { Bn c = Bn::add(id, K().r); if (c < K().two256) id = c; Bn c2 = Bn::add(c, K().r); if ((off + (size_t) i) % 2 && c2 < K().two256) id = c2; env.count("probe:fixed_slot_repeated_with_other_representative"); }
                 attrs.push_back({(uint32_t) i, id, false});
             } else if (ps.st == ST_HIDDEN) {
-                if (t == "h") { attrs.push_back({(uint32_t) i, Bn(0), true}); env.count("probe:hidden_slot_repeated_as_hidden"); }
+                if (t == "h") { attrs.push_back({(uint32_t) i, alt ? Bn(9) : Bn(0), true}); env.count("probe:hidden_slot_repeated_as_hidden"); }
             } else {
                 if (t.compare(0, 2, "f:") == 0) { Bn id = value_of_code(t.substr(2)); attrs.push_back({(uint32_t) i, id, false}); child[(size_t) i].st = ST_FIXED; child[(size_t) i].v = Bn::mod(id, K().r); if (id >= K().r) env.count("probe:attribute_value_ge_r"); }
-                else if (t == "h") { attrs.push_back({(uint32_t) i, Bn(0), true}); child[(size_t) i].st = ST_HIDDEN; env.count("probe:free_slot_hidden"); }
+                else if (t == "h") { attrs.push_back({(uint32_t) i, alt ? Bn(7 + (uint64_t) i) : Bn(0), true}); child[(size_t) i].st = ST_HIDDEN; env.count("probe:free_slot_hidden"); if (alt) env.count("probe:hidden_entry_with_nonzero_id"); }   // the Go wrapper writes id 0; a C caller may leave any id there: key operations ignore it
                 else if (omit_all) child[(size_t) i].st = ST_HIDDEN;
             }
         }
@@ -108,7 +108,7 @@ struct WkdRun {
     }
     // derive a list from a key pattern and a mutation code
     std::vector<MAttr> derive_list(const std::vector<Slot>& p, int64_t mut) {
-        int kind = (int) (mut & 15); size_t pick = (size_t) ((mut >> 8) & 0xFF); std::string code = value_codes()[(size_t) ((mut >> 4) & 15) % value_codes().size()];
+        int kind = (int) (mut & 15) % 9; size_t pick = (size_t) ((mut >> 8) & 0xFF); std::string code = value_codes()[(size_t) ((mut >> 4) & 15) % value_codes().size()];
         std::vector<MAttr> L = list_of_pattern(p, kind == 5);
         std::vector<size_t> nonfixed; for (size_t i = 0; i < p.size(); i++) if (p[i].st != ST_FIXED) nonfixed.push_back(i);
         auto sortL = [&]() { std::sort(L.begin(), L.end(), [](const MAttr& a, const MAttr& b) { return a.idx < b.idx; }); };
@@ -118,6 +118,7 @@ struct WkdRun {
         case 3: { std::vector<size_t> nz; for (size_t i = 0; i < L.size(); i++) if (!Bn::mod(L[i].id, K().r).is_zero()) nz.push_back(i); if (!nz.empty()) L.erase(L.begin() + (long) nz[pick % nz.size()]); } break;
         case 4: if (!nonfixed.empty()) { L.push_back({(uint32_t) nonfixed[pick % nonfixed.size()], Bn(0), true}); sortL(); } break;
         case 6: L.clear(); break;
+        case 8: if (!nonfixed.empty()) { Bn v = value_of_code(code); if (Bn::mod(v, K().r).is_zero()) v = Bn(5); L.push_back({(uint32_t) nonfixed[pick % nonfixed.size()], v, true}); sortL(); env.count("probe:list_entry_flagged_omit_with_nonzero_id"); } break;
         case 7: { L.clear(); Rng r((uint64_t) mut); for (int i = 0; i < sys.l; i++) if (r.chance(1, 2)) L.push_back({(uint32_t) i, value_of_code(value_codes()[r.below(value_codes().size())]), false}); } break;
         default: break;
         }
@@ -451,7 +452,7 @@ struct WkdRun {
         case 2: { Bn c = Bn::add(Bn::mod(m, K().r), K().r); if (Bn::mod(m, K().r) == m && c < K().two256) { m = c; what = "message+r (same message mod r)"; env.count("probe:verify_same_message_other_representative"); } else what = "unchanged"; break; }
         case 3: if (!L.empty()) { MAttr& a = L[pick % L.size()]; a.id = Bn::mod(Bn::add(a.id, Bn(1)), K().two256); expect = false; what = "one list value changed"; } break;
         case 4: { std::vector<int> absent; for (int i = 0; i < sys.l; i++) { bool in = false; for (auto& a : L) if ((int) a.idx == i) in = true; if (!in) absent.push_back(i); }
-                  if (!absent.empty()) { L.push_back({(uint32_t) absent[pick % absent.size()], Bn(11), false}); std::sort(L.begin(), L.end(), [](const MAttr& a, const MAttr& b) { return a.idx < b.idx; }); expect = false; what = "slot added to the list"; } break; }
+                  if (!absent.empty()) { L.push_back({(uint32_t) absent[pick % absent.size()], Bn(11), (pick & 8) != 0}); std::sort(L.begin(), L.end(), [](const MAttr& a, const MAttr& b) { return a.idx < b.idx; }); expect = false; what = "slot added to the list"; } break; }
         case 5: { std::vector<size_t> nz; for (size_t i = 0; i < L.size(); i++) if (!Bn::mod(L[i].id, K().r).is_zero()) nz.push_back(i); if (!nz.empty()) { L.erase(L.begin() + (long) nz[pick % nz.size()]); expect = false; what = "slot removed from the list"; } break; }
         case 6: { G1v a0 = w.field<G1v>(JV_OK_WK_SIG, sig, JV_F_SIG_A0); w.setfield(JV_OK_WK_SIG, sig, JV_F_SIG_A0, 0, w.g1add(a0, sys.g3)); expect = false; what = "a0 replaced by another valid element"; break; }
         case 7: { G2v a1 = w.field<G2v>(JV_OK_WK_SIG, sig, JV_F_SIG_A1); w.setfield(JV_OK_WK_SIG, sig, JV_F_SIG_A1, 0, w.g2add(a1, sys.g)); expect = false; what = "a1 replaced by another valid element"; break; }
